@@ -22,7 +22,7 @@ SCORE_DETECTORS = ("PELT", "MovingWindow", "CAPA", "MVCAPA")
 def repr_spec(draw, p, integral, index_kinds=D.INDEX_KINDS):
     containers = ["DataFrame", "ndarray2d"] + (["Series", "ndarray1d"] if p == 1 else [])
     return {"container": draw(st.sampled_from(containers)),
-            "dtype": draw(st.sampled_from(["float64", "int64"])) if integral else "float64",
+            "dtype": draw(st.sampled_from(["int64", "float64"])) if integral else "float64",
             "index": draw(D.index_spec(index_kinds)), "columns": draw(st.sampled_from(["default", "strings"]))}
 
 
@@ -76,7 +76,7 @@ def cases(draw, tier, det):
     params, n_min = draw(K.detector_params(det, p, max_msl=3, max_bw=4, allow_cov=False))
     nmax = 30 if det != "CircularBinarySegmentation" else 18
     n = draw(st.integers(n_min, max(n_min, nmax)))
-    integral = draw(st.booleans())
+    integral = draw(st.sampled_from([True, False]))
     bw = params.get("bandwidth", params.get("min_segment_length", 1))
     X, _ = draw(D.structured_matrix(n, p, exact=integral, boundary_positions=(bw, n - bw)))
     case = {"detector": det, "params": params, "X": X, "integral": integral}
@@ -196,8 +196,11 @@ def check(case):
 # ------------------------------------------------------------------ scorers
 
 
-SCORER_SPECS = [{"cls": "L2Cost"}, {"cls": "L2Cost", "param": 0.5}, {"cls": "GaussianVarCost"},
-                {"cls": "GaussianVarCost", "param": {"tuple": [0.0, 2.0]}}, {"cls": "GaussianCovCost"},
+SCORER_SPECS = [{"cls": "L2Cost", "param": 0.5}, {"cls": "L2Cost"}, {"cls": "GaussianVarCost"},
+                {"cls": "GaussianVarCost", "param": {"tuple": [0.25, 2.5]}}, {"cls": "GaussianCovCost"},
+                {"cls": "GaussianCovCost", "param": {"tuple": [0.5, 1.5]}},
+                {"cls": "Saving", "baseline_cost": {"cls": "L2Cost", "param": 0.5}},
+                {"cls": "Saving", "baseline_cost": {"cls": "GaussianVarCost", "param": {"tuple": [0.5, 1.5]}}},
                 {"cls": "CUSUM"}, {"cls": "ChangeScore", "cost": {"cls": "GaussianVarCost"}}, {"cls": "L2Saving"},
                 {"cls": "Saving", "baseline_cost": {"cls": "L2Cost", "param": 0.0}},
                 {"cls": "LocalAnomalyScore", "cost": {"cls": "L2Cost"}},
@@ -210,7 +213,7 @@ def scorer_cases(draw, tier):
     p = draw(st.integers(1, 3))
     ms = K.scorer_min_size(spec, p)
     n = draw(st.integers(max(2 * ms + 2, 6), 30))
-    integral = draw(st.booleans())
+    integral = draw(st.sampled_from([True, False]))
     X = draw(D.exact_matrix(n, p, dyadic=False)) if integral else draw(D.generic_matrix(n, p))
     k = {"CUSUM": 3, "ChangeScore": 3, "LocalAnomalyScore": 4}.get(spec["cls"], 2)
     cuts = []
@@ -264,7 +267,7 @@ def det_facet(det, nq, nt):
 FACETS = [det_facet(d, 200 if d != "CircularBinarySegmentation" else 120, 4000 if d != "CircularBinarySegmentation" else 2000)
           for d in K.DETECTORS] + [
     Facet(name="scorers", check=check_scorer, strategy=scorer_cases,
-          rule=("11 scorer configurations fitted on array / Series / DataFrame (int64 or float64, any index) and evaluated with cuts "
+          rule=("15 scorer configurations (incl. non-integer fixed parameters) fitted on array / Series / DataFrame (int64 or float64, any index) and evaluated with cuts "
                 "given as int64 / int32 arrays or nested lists; compared with the canonical run; non-trivial = non-canonical "
                 "representation"),
           n_quick=400, n_thorough=6000, shards_quick=4, shards_thorough=8),
